@@ -697,5 +697,5 @@ pub fn gen_puppet_spec(c: &mut Chooser, allow_late: bool, modes: &[Mode], fins: 
         fin = Fin::End;
     }
     let burst = if mode == Mode::Listen && c.chance(1, 3) { 1 + c.choose(3) } else { 0 };
-    PuppetSpec { mode, late, fin, burst, eager_end: false, per_pull: 1, on_stop: None, on_stop2: None, feedback: None, on_pull: None }
+    PuppetSpec { mode, late, fin, burst, eager_end: false, per_pull: 1, on_stop: None, on_stop2: None, feedback: None, on_pull: None, backlog: false }
 }
